@@ -234,6 +234,7 @@ class _H:
         self.lose_called = set()  # roles that called loseConnection
         self.half_called = set()  # roles that called loseWriteConnection
         self.unreg_after_half = False
+        self.unreg_after_half_performed = False
         self.echoed = 0
         self.prod = None
         self.prod_registered = False
@@ -336,6 +337,13 @@ class _H:
             self.prod_registered = False
             if "sender" in self.half_called and "sender" not in self.lose_called:
                 self.unreg_after_half = True
+                try:
+                    state = p.transport.getHandle().getsockopt(socket.IPPROTO_TCP, socket.TCP_INFO, 1)[0]
+                except (OSError, AttributeError):
+                    state = 1
+                if state not in (1, 8):
+                    # our FIN is out: the half-close was performed while the producer was still registered
+                    self.unreg_after_half_performed = True
             p.transport.unregisterProducer()
 
     def end_of_schedule(self, p):
@@ -768,6 +776,8 @@ class _H:
                 ctx.count("producer paused by back-pressure")
             if self.unreg_reentrant:
                 ctx.count("producer unregistered from inside resumeProducing")
+            if self.unreg_after_half_performed:
+                ctx.count("producer unregistered after the half-close had already been performed (connection still open)")
             if self.closed_while_registered_paused:
                 ctx.count("loseConnection while a paused push producer is registered")
                 if self.unreg_reentrant:
@@ -858,6 +868,15 @@ def _matrix2():
         for sc in ("sender-half", "duplex-half", "sender-lose"):
             yield _case(reactor=rk, scenario=sc, steps=[["w", 100000]], reply=[150000, 10],
                         tx_pause=[0, 2], rx_pause=[1, 2])
+        # small writes: the producer is never paused, so a half-close is performed while it is
+        # still registered; it unregisters a little later, the peer (paused) keeps the connection open
+        for sc in ("sender-half", "duplex-half"):
+            for prod in ("push", "pull"):
+                for iface in (True, False):
+                    for client in (True, False):
+                        yield _case(reactor=rk, scenario=sc, producer=prod, fin="close-unreg-later", unreg_delay=2,
+                                    steps=[["w", 1000]], rx_pause=[0, 8], reply=[10], sender_is_client=client,
+                                    tx_half_iface=iface, rx_half_iface=iface)
 
 
 def _strategy(rk, max_exp):
@@ -892,7 +911,7 @@ def _strategy(rk, max_exp):
         tx_pause=st.one_of(st.none(), st.tuples(st.integers(0, 20000), st.sampled_from([0, 1, 5])).map(list)),
         producer=st.sampled_from([None, None, "push", "push", "pull"]),
         fin=st.sampled_from(["unreg-close", "close-unreg-resume", "close-unreg-later"]),
-        unreg_delay=st.sampled_from([0, 1, 5]),
+        unreg_delay=st.sampled_from([0, 1, 2, 5]),
     )
 
 
